@@ -482,6 +482,11 @@ class DeepCopyMethod(MethodDescriptor):
             return self
         new = self.__class__.__new__(self.__class__)
         for attr, value in self.__dict__.items():
+            if attr == "__spec_class_initializing__":
+                # A copy taken while the original is still being constructed
+                # (e.g. in `__post_init__`) is itself complete; it must not
+                # inherit the window in which frozen instances are writable.
+                continue
             if inspect.ismethod(value) and value.__self__ is self:
                 # Re-bind methods of this instance to the copy (copying them
                 # would drag along, and recurse into, the original instance).
